@@ -478,6 +478,9 @@ pub fn judge(emu: &mut Emu, g: &Guest, sched: &[(u32, u8)]) -> Result<(RunInfo, 
 
 pub fn run(ctx: &Ctx) -> i32 {
     if let Some(v) = &ctx.replay {
+        if crate::checks::soup::is_soup_replay(v) {
+            return crate::checks::soup::replay(ctx, P, v);
+        }
         let case = v.get("case").unwrap_or(v);
         let Some((g, sched)) = case_from_json(case) else { return 2 };
         let mut emu = Emu::new(&ctx.base);
@@ -498,7 +501,7 @@ pub fn run(ctx: &Ctx) -> i32 {
     let tier = ctx.tier;
     let n: u32 = tier.pick(100_000, 2_000_000);
     let nshards = 64usize;
-    let stats = par_shards(ctx, nshards, |shard| {
+    let mut stats = par_shards(ctx, nshards, |shard| {
         let w = Worker::new(ctx);
         let ent = entropy_n(900);
         let _ = run_prop(mix(ctx.seed, 0x1001_0000 + shard as u64), n / nshards as u32, &ent, |raw, shrinking| {
@@ -562,5 +565,8 @@ pub fn run(ctx: &Ctx) -> i32 {
     let mut extra = Map::new();
     extra.insert("nontrivial_fraction".into(), json!(nt_frac));
     let rule = "cases = proptest-generated guest programs (main: straight-line arithmetic on registers/memory, counted loops, calls, TRAPA #1-3, 'set CCR' trampolines that mask and unmask interrupts; handlers for a random subset of vectors 1-63 that save a register, increment their own counter word, optionally re-enable interrupts (nesting), restore and RTE; a tail with interrupts enabled) plus a schedule of up to 64 (boundary, vector) injections incl. bursts at one boundary and during handlers. Driver = the run loop's order: poll, then one instruction; requests raised through the interrupt controller. Oracle = history invariants in lockstep with the reference: an entry is legal iff CCR.I was clear and the vector is in the model's pending multiset (order of simultaneously pending requests is free), its frame/PC/I effects are C06's; every instruction equals the reference step; at the end nothing is pending, every vector's handler ran exactly as often as it was requested (entry count and the guest-visible counter), and registers/CCR/memory outside counters and dead stack equal the same program run with an empty schedule (metamorphic). Non-trivial = a request raised while I = 1 or >= 2 pending at once; distinct by (program, schedule).";
+    stats.merge(crate::checks::soup::phase_irq(ctx, P, crate::checks::soup::Flavor::All, ctx.tier.pick(200_000, 4_000_000), 0x10510000, false, true));
+    let rule_soup = format!("{}{}", rule, crate::checks::soup::RULE_IRQ);
+    let rule: &str = &rule_soup;
     finish(ctx, P, stats, rule, vec!["requests are raised synchronously (the emulator has no real asynchrony): injection points between instructions are the whole schedule space".into(), "bounded liveness: delivery is required by the end of a tail that runs 90 instructions with interrupts enabled".into()], extra)
 }
